@@ -123,6 +123,7 @@ def complete_task():
         Obl("C09/T1/CompleteTask", P.t1_processed_with_effects(), when="any"),
         Obl("C01/T6/CompleteTask", P.t6_single_commit(), when="any"),
         Obl("C01/T7/CompleteTask", P.t7_no_split, when="any"),
+        Obl("C13/T7/CompleteTask", P.t7_no_split, when="any"),  # nothing commits on its own inside the completion transaction (it would commit the completion without its event)
         Obl("C05/T2/CompleteTask", _complete_task_t2, when="any"),
         Obl("C05/T2b/CompleteTask", P.no_push_after_commit, when="any"),
         Obl("C06/T3/CompleteTask", P.t3_legal_write(), when="any"),
@@ -987,6 +988,7 @@ def complete_stage():
         Obl("C02/T1/CompleteStage", t1_or_absorbing(_cs_absorbing), when="any"),
         Obl("C09/T1/CompleteStage", t1_or_absorbing(_cs_absorbing), when="any"),
         Obl("C01/T7/CompleteStage", P.t7_no_split, when="any"),
+        Obl("C13/T7/CompleteStage", P.t7_no_split, when="any"),  # nothing commits on its own inside the completion transaction (it would commit the completion without its event)
         Obl("C03/push/continuable-only", _cs_downstream_only_when_continuable, when="any"),
         Obl("C05/T2/CompleteStage", _cs_t2, when="any"),
         Obl("C05/T2b/CompleteStage", P.no_push_after_commit, when="any"),
@@ -1411,6 +1413,7 @@ def skip_stage():
         Obl("C09/T1/SkipStage", P.t1_processed_with_effects(), when="any"),
         Obl("C01/T6/SkipStage", P.t6_single_commit(), when="any"),
         Obl("C01/T7/SkipStage", P.t7_no_split, when="any"),
+        Obl("C13/T7/SkipStage", P.t7_no_split, when="any"),  # nothing commits on its own inside the completion transaction (it would commit the completion without its event)
         Obl("C05/T2/SkipStage", _continuation_after(("SKIPPED",)), when="any"),
         Obl("C03/push/SkipStage", _continuation_after(("SKIPPED",)), when="any"),
         Obl("C05/T2b/SkipStage", P.no_push_after_commit, when="any"),
